@@ -5,6 +5,12 @@ PLAN = dict(
     steps=[
         step("wf-x86", "codegen-x86", "wf-x86", 150, 6000, shards_thorough=12),
         step("wf-print-contexts-x86", "codegen-x86", "wf-x86", 24, 200, shards_thorough=2, args=["printctx"]),
+        step("wf-a64", "codegen-a64", "wf-a64", 100, 4000, shards_thorough=8),
+        step("wf-rv", "codegen-all", "wf-rv", 100, 4000, shards_thorough=8, args=["--rv-only"]),
+        # the known finding label-collision-name-digits, instantiated for the current value of the label counter
+        step("label-collision-probe-x86", "codegen-x86", "wf-x86", 2, 8, shards_thorough=1, args=["c14probe"]),
+        step("label-collision-probe-a64", "codegen-a64", "wf-a64", 2, 8, shards_thorough=1, args=["c14probe"]),
+        step("label-collision-probe-rv", "codegen-rv", "wf-rv", 2, 8, shards_thorough=1, args=["c14probe"]),
     ],
     rule="the REAL x86-64 instruction list of every corpus program and of n random Fun programs (identifiers resembling generated names: "
          "lab1, cleanup, asm_main, share_f_0, lift_f__7, x0, a0; types with many xtors; literals of every magnitude) is checked by asm_wf: each "
